@@ -292,7 +292,9 @@ def IPPE_dec(v, J):
     R22_tild = A/gamma
 
     h = np.eye(2)-R22_tild.T.dot(R22_tild)
-    b = np.vstack((np.sqrt(h[0, 0]), np.sqrt(h[1, 1])))
+    # The diagonal of h is 1 - |column|^2 >= 0. When a model axis is perpendicular to the line of sight it is exactly 0
+    # and round-off can make it slightly negative, which must not turn the whole solution into NaN
+    b = np.vstack((np.sqrt(max(h[0, 0], 0.0)), np.sqrt(max(h[1, 1], 0.0))))
     if h[0, 1] < 0:
         b[1] = -b[1]
     v1 = np.vstack((R22_tild[:, 0:1], np.array([b[0]])))
